@@ -52,8 +52,8 @@ UsedMetric == IF Variant = "euclid_always" THEN "euclidean" ELSE metric
 
 Apply ==
     /\ phase = "in"
-    /\ LET mins == [ id \in ColumnIds(shape, ax) |->
-                        Minimisers(UsedMetric, Column(inp, shape, ax, id), Candidates, invs, L) ]
+    /\ LET mins == TLCEval([ id \in ColumnIds(shape, ax) |->
+                        Minimisers(UsedMetric, Column(inp, shape, ax, id), Candidates, invs, L) ])
        IN  \E ch \in [ ColumnIds(shape, ax) -> UNION { mins[id] : id \in ColumnIds(shape, ax) } ] :
               /\ \A id \in ColumnIds(shape, ax) : ch[id] \in mins[id]
               /\ out' = [ p \in Positions(shape) |-> ch[<< p[OtherAxes(ax)[1]], p[OtherAxes(ax)[2]] >>][p[ax]] ]
